@@ -32,8 +32,10 @@ const (
 
 func NewEncoder(w *bufio.Writer, side ConnSide) *Encoder { return imapwire.NewEncoder(w, side) }
 func NewDecoder(r *bufio.Reader, side ConnSide) *Decoder { return imapwire.NewDecoder(r, side) }
-func NewContinuationRequest() *ContinuationRequest      { return imapwire.NewContinuationRequest() }
+func NewContinuationRequest() *ContinuationRequest       { return imapwire.NewContinuationRequest() }
 
-func ExpectFlag(dec *Decoder) (imap.Flag, error)               { return internal.ExpectFlag(dec) }
-func ExpectMailboxAttr(dec *Decoder) (imap.MailboxAttr, error) { return internal.ExpectMailboxAttr(dec) }
-func ExpectFlagList(dec *Decoder) ([]imap.Flag, error)         { return internal.ExpectFlagList(dec) }
+func ExpectFlag(dec *Decoder) (imap.Flag, error) { return internal.ExpectFlag(dec) }
+func ExpectMailboxAttr(dec *Decoder) (imap.MailboxAttr, error) {
+	return internal.ExpectMailboxAttr(dec)
+}
+func ExpectFlagList(dec *Decoder) ([]imap.Flag, error) { return internal.ExpectFlagList(dec) }
